@@ -69,6 +69,7 @@ pub fn cases(args: &[String]) {
     std::panic::set_hook(Box::new(|_| {}));
     let mut out: Vec<Value> = Vec::new();
     for round in 0..n {
+        crate::util::tick_idx(round as u64, serde_json::Value::Null);
         let (la, lb) = pair_lens(&mut rng);
         let alphabet = [2u64, 5, 1000, u16::MAX as u64][rng.below(4) as usize];
         let (a, b) = gen_keys(&mut rng, la, lb, alphabet);
@@ -79,8 +80,13 @@ pub fn cases(args: &[String]) {
             3 => generic_estimators!(&mut out, "usize", &a, &b, |k: u64| k as usize, usize),
             4 => {
                 // f64 sketches: keys are bit patterns of non-negative finite doubles
-                let ka: Vec<u64> = a.iter().map(|k| (*k as f64 * 0.37).to_bits()).collect();
-                let kb: Vec<u64> = b.iter().map(|k| (*k as f64 * 0.37).to_bits()).collect();
+                // in a third of the rounds: values below 2 where equal positions are turned into neighbouring doubles
+                // (1 ulp apart: different values, to be counted as different)
+                let near = rng.coin(0.34);
+                let sc = if near { 1.0 / 65536.0 } else { 0.37 };
+                let ka: Vec<u64> = a.iter().map(|k| (*k as f64 * sc).to_bits()).collect();
+                let mut kb: Vec<u64> = b.iter().map(|k| (*k as f64 * sc).to_bits()).collect();
+                if near { for i in 0..kb.len().min(ka.len()) { if ka[i] == kb[i] && rng.coin(0.5) { kb[i] = ka[i] + 1; } } }
                 generic_estimators!(&mut out, "f64", &ka, &kb, |k: u64| f64::from_bits(k), f64);
                 let va: Vec<f64> = ka.iter().map(|k| f64::from_bits(*k)).collect();
                 let vb: Vec<f64> = kb.iter().map(|k| f64::from_bits(*k)).collect();
@@ -92,8 +98,11 @@ pub fn cases(args: &[String]) {
                 emit(&mut out, "smh_get_jaccard_index_estimate", "f64", "f64", &ka, &kb, oc, v.map(|x| x.to_bits()));
             }
             _ => {
-                let ka: Vec<u64> = a.iter().map(|k| (*k as f32 * 0.37).to_bits() as u64).collect();
-                let kb: Vec<u64> = b.iter().map(|k| (*k as f32 * 0.37).to_bits() as u64).collect();
+                let near = rng.coin(0.34);
+                let sc = if near { 1.0f32 / 65536.0 } else { 0.37f32 };
+                let ka: Vec<u64> = a.iter().map(|k| (*k as f32 * sc).to_bits() as u64).collect();
+                let mut kb: Vec<u64> = b.iter().map(|k| (*k as f32 * sc).to_bits() as u64).collect();
+                if near { for i in 0..kb.len().min(ka.len()) { if ka[i] == kb[i] && rng.coin(0.5) { kb[i] = ka[i] + 1; } } }
                 generic_estimators!(&mut out, "f32", &ka, &kb, |k: u64| f32::from_bits(k as u32), f32);
                 let va: Vec<f32> = ka.iter().map(|k| f32::from_bits(*k as u32)).collect();
                 let vb: Vec<f32> = kb.iter().map(|k| f32::from_bits(*k as u32)).collect();
